@@ -88,7 +88,6 @@ func addVehicles(
 		return nil, fmt.Errorf("invalid duration matrix type: %T", matrix)
 	}
 
-	durationGroupsExpression := NewDurationGroupsExpression(model.NumberOfStops(), len(input.Vehicles))
 	distanceExpression := distanceExpression(input.DistanceMatrix)
 
 	inputVehicleHasAlternateStops := false
@@ -104,6 +103,9 @@ func addVehicles(
 		if travelDurationMap[inputVehicle.ID] != nil {
 			td = *travelDurationMap[inputVehicle.ID]
 		}
+		// every vehicle type owns its process duration expression: the stop duration
+		// multiplier of a vehicle is applied to the durations stored in it
+		durationGroupsExpression := NewDurationGroupsExpression(model.NumberOfStops(), len(input.Vehicles))
 		vehicleType, err := newVehicleType(
 			inputVehicle,
 			model,
